@@ -234,6 +234,9 @@ class Runner:
             deltas.append(float(v - prev))
             prev = v
         st = sc.Stairs(initial_value=float(init), closed=closed)
+        if self.fl.get("valdtype") == "int" and all(F(d).denominator == 1 for d in deltas) and F(init).denominator == 1:
+            deltas = [int(d) for d in deltas]       # integer-typed values: the vector routes then build int64 step changes
+            st = sc.Stairs(initial_value=int(init), closed=closed)
         if route == "layer":
             for k, d in zip(ks, deltas):
                 if d != 0:
@@ -316,6 +319,8 @@ class Runner:
                 starts = [self.bound(a) for a, _, _ in ts]
                 ends = [self.bound(b) for _, b, _ in ts]
                 vals = [float(v) for _, _, v in ts]
+                if self.fl.get("valdtype") == "int" and all(F(v).denominator == 1 for _, _, v in ts):
+                    vals = [int(v) for _, _, v in ts]      # integer-typed values (int64 step changes on a fresh receiver)
                 lr = self.fl["lroute"]
                 # trailing missing entries of the shorter vector may simply be left out
                 if lr == "short":
